@@ -328,8 +328,14 @@ func (ss *SourceConf) MarshalJSON() ([]byte, error) {
 	for _, p := range append(ss.Include, ss.Ignore...) {
 		strings = append(strings, p.String())
 	}
-	aux.Include = strings[0:len(ss.Include)]
-	aux.Ignore = strings[len(ss.Include):]
+	// A list that was omitted stays omitted: an empty list in the document
+	// would not be inherited by whoever parses it
+	if ss.Include != nil {
+		aux.Include = strings[0:len(ss.Include)]
+	}
+	if ss.Ignore != nil {
+		aux.Ignore = strings[len(ss.Include):]
+	}
 	if ss.isErrorBackoffSet {
 		aux.ErrorBackoff = fmt.Sprintf("%f", ss.ErrorBackoff)
 	}
